@@ -141,8 +141,19 @@ def run(repo: Repo, rep: Report, tier: str) -> None:
         if len(ifs) != 1:
             rep.violation("R16.4", sub, f"{ead.fq}|branch-missing|{branch}", f"no `isinstance(<obj>, {branch})` branch", ead.loc())
             continue
-        rec = [c for c in calls_in(ifs[0]) if (dotted(c.func) or "").endswith("._ensure_all_dicts")]
-        other = [c for c in calls_in(ifs[0]) if (dotted(c.func) or "").endswith("._serialize_with_tracking")]
+        # the statements executed when the test holds: the body - or, for `if not isinstance(...): return ...`, what follows the If
+        t0 = ifs[0].test
+        negated = isinstance(t0, ast.UnaryOp) and isinstance(t0.op, ast.Not)
+        region: List[ast.AST] = list(ifs[0].body)
+        if negated and ifs[0].body and isinstance(ifs[0].body[-1], (ast.Return, ast.Raise, ast.Continue)):
+            region = list(ifs[0].orelse)
+            for holder in [ead.node] + [n for n in own_nodes(ead.node)]:
+                for fld in ("body", "orelse", "finalbody"):
+                    blk = getattr(holder, fld, None)
+                    if isinstance(blk, list) and ifs[0] in blk:
+                        region += blk[blk.index(ifs[0]) + 1:]
+        rec = [c for st in region for c in calls_in(st) if (dotted(c.func) or "").endswith("._ensure_all_dicts")]
+        other = [c for st in region for c in calls_in(st) if (dotted(c.func) or "").endswith("._serialize_with_tracking")]
         if rec and not other:
             rep.ok("R16.4", sub, "recurses with _ensure_all_dicts on every element/value (dataclasses, dicts and lists inside are all post-processed)", ead.loc(ifs[0]))
         else:
